@@ -80,7 +80,7 @@ def meta_with_include(rng, include=None):
 # ---------------------------------------------------------------------------
 def polygon_vertices(rng, L, cx, cy, kind=None):
     kind = kind or rng.choice(['convex', 'star', 'star', 'random', 'bowtie', 'pentagram', 'repeat', 'collinear',
-                               'rectilinear', 'triangle', 'keyhole', 'hourglass'])
+                               'rectilinear', 'triangle', 'keyhole', 'hourglass', 'balanced'])
     if kind == 'triangle':
         n = 3
         pts = [(rng.uniform(-1, 1), rng.uniform(-1, 1)) for _ in range(n)]
@@ -127,6 +127,13 @@ def polygon_vertices(rng, L, cx, cy, kind=None):
         a = rng.uniform(0.3, 1)
         tip = (rng.uniform(-0.2, 0.2), rng.uniform(-0.2, 0.2))
         pts = [tip, (-a, -1), (a, -1), tip, (rng.uniform(0.3, 1), 1), (-rng.uniform(0.3, 1), 1)]
+    elif kind == 'balanced':
+        # self-intersecting outlines whose two lobes have equal area and opposite orientation: the signed (shoelace) area is
+        # exactly zero although the even-odd interior is not empty.  Dyadic coordinates keep the cancellation exact.
+        a, b = rng.choice([0.25, 0.5, 0.75, 1.0]), rng.choice([0.25, 0.5, 1.0])
+        pts = rng.choice([[(-a, -b), (a, b), (a, -b), (-a, b)], [(-a, -b), (a, -b), (-a, b), (a, b)]])
+        L = float(2 ** round(math.log2(max(L, 1e-3))))
+        cx, cy = (float(round(cx)), float(round(cy))) if abs(cx) < 1e9 and abs(cy) < 1e9 else (cx, cy)
     elif kind == 'collinear':
         pts = [(-1, -1), (0, -1), (0.5, -1), (1, -1), (1, 0), (1, 1), (0, 1), (-1, 1), (-1, 0.25)]
         pts = pts[:rng.randint(5, len(pts))]
